@@ -100,4 +100,18 @@ P("C17", "other", "typestate rule 'no safety debt in Drop' + abstract interpreta
   "Decided: every iterator type whose methods reach the bitwise copy-out primitive either owns the cache by value (forgetting it forgets "
   "the cache) or, if it holds &mut, its constructor already leaves the cache empty and detached (E3 post-state: size 0, no entries, "
   "seal reset) so that Drop owes nothing for soundness; borrowing iterators have no Drop and reach no writer.", E3TB, "DESIGN.md 3/C17")
+P("C05", "other", "abstract interpretation with must/may promotion ghosts + store-set comparison of the list primitives + call-graph who-may-promote",
+  "Clauses decided: (1) only insert, try_insert, get, get_entry, get_lru, touch and mutate can move an entry to the MRU end, every "
+  "other &mut method provably promotes nothing (may-ghost empty at every exit), operations through & write nothing (C19); (2) on every "
+  "path of the promoting methods a found/inserted entry is spliced in at the MRU end before a success return (must-ghost), and failure "
+  "exits (miss, rejected insertion) have promoted nothing; (3) the splice-in / unlink primitives write exactly the four / two links of "
+  "a doubly-linked splice; (4) relocation and clone rebuild the list in traversal order.",
+  E3TB + " Not decided: 'order of last access for every history' needs the list-shape invariant (C07).", "DESIGN.md 3/C05")
+P("C07", "other", "abstract interpretation with pending-link ghosts + handle-validity (typestate) rules",
+  "Partial. Decided: every entry inserted into the cache's table is linked before the method returns or user code runs; no link of the "
+  "cache's nodes points into a table the cache does not own when a method returns or user code runs; handles obtained before a "
+  "reallocation/removal are not dereferenced afterwards; relocation rebuilds both directions; seal allocated once, initialised to "
+  "itself, freed once after the table was drained; iterator cursors are dereferenced only behind the null test. Not decided: the "
+  "global list shape (mirror-image traversals of exactly len() entries) and aliasing-model UB.",
+  E3TB, "DESIGN.md 3/C07")
 NOT_CLAIMED = {}
